@@ -185,6 +185,8 @@ func checkC05(c *Check) {
 
 	c05Settings(c)
 	arrivalOrder(c, "ARRIVAL-ORDER")
+	importsInTextOrder(c, "IMPORTS-IN-TEXT-ORDER")
+	flattenResultKept(c, "FLATTEN-RESULT-KEPT")
 
 	// locate read, claim, lookup
 	var read ssa.CallInstruction
@@ -1082,4 +1084,155 @@ func arrivalOrder(c *Check, rule string) {
 	if n == 0 {
 		c.Okf(rule, fnName(ic.collector)+"|no arrival-ordered list", p.pos(ic.collector.Pos()), "the collector appends to no slice of the shared file table %s; file order is derived by the flatten walk", ic.RL.Obj().Name())
 	}
+}
+
+// importsInTextOrder: the imports recorded for a file are the pre-parse's list
+// itself, in the order the import statements stand in the text — the flatten
+// walk derives the order of files from it. Nothing may re-order or rebuild the
+// list on the way (a sort, a round trip through a map), and nobody may write
+// into its backing array afterwards (an in-place filter `x[:0]` + append).
+func importsInTextOrder(c *Check, rule string) {
+	p := c.P
+	ic := findImportClosure(c)
+	if ic == nil || ic.collector == nil {
+		c.Undecidedf(rule, "collector", "-", "import collector not found: unresolved anchor")
+		return
+	}
+	col := ic.collector
+	n := 0
+	eachInstr(col, func(_ *ssa.BasicBlock, i ssa.Instruction) {
+		st, ok := i.(*ssa.Store)
+		if !ok {
+			return
+		}
+		own, fld, _, ok := fieldOfAddr(st.Addr)
+		if !ok || own == nil || own != ic.elemType {
+			return
+		}
+		sl, isSlice := st.Val.Type().Underlying().(*types.Slice)
+		if !isSlice {
+			return
+		}
+		if _, isStruct := sl.Elem().Underlying().(*types.Struct); !isStruct {
+			return
+		}
+		n++
+		key := fmt.Sprintf("%s|%s.%s is the pre-parse's list", fnName(col), own.Obj().Name(), fld)
+		// source: a slice result of a repository call (the import pre-parse)
+		isSource := func(v ssa.Value) bool {
+			switch x := v.(type) {
+			case *ssa.Extract:
+				if cl, ok := x.Tuple.(*ssa.Call); ok {
+					sc := cl.Call.StaticCallee()
+					return sc != nil && isRepoFn(sc) && types.Identical(x.Type(), st.Val.Type())
+				}
+			}
+			return false
+		}
+		off, reached := flowOffender(st.Val, isSource, nil)
+		switch {
+		case off != nil:
+			callee := "a call"
+			if o := calleeObj(off); o != nil {
+				callee = shortObj(o)
+			} else if sc := off.Call.StaticCallee(); sc != nil {
+				callee = fnName(sc)
+			}
+			c.Flagf(rule, key, p.pos(off.Pos()), "the list of a file's imports passes through %s before it is recorded: the order of the import statements in the text is what fixes the order in which files are combined", callee)
+		case !reached:
+			if cl, ok := st.Val.(*ssa.Call); ok {
+				callee := fnName(cl.Call.StaticCallee())
+				c.Flagf(rule, key, p.pos(st.Pos()), "the list of a file's imports is rebuilt by %s before it is recorded: the order of the import statements in the text is what fixes the order in which files are combined", callee)
+			} else {
+				c.Undecidedf(rule, key, p.pos(st.Pos()), "cannot relate the recorded import list to the pre-parse result")
+			}
+		default:
+			// no later write into the same backing array: x[:0] re-slices of the recorded value
+			bad := ""
+			eachInstr(col, func(_ *ssa.BasicBlock, j ssa.Instruction) {
+				s2, ok := j.(*ssa.Slice)
+				if !ok || s2.High == nil {
+					return
+				}
+				if k, isK := constInt(s2.High); !isK || k != 0 {
+					return
+				}
+				if s2.X == st.Val || exprKey(s2.X, 0) == exprKey(st.Val, 0) {
+					bad = p.pos(s2.Pos())
+				}
+			})
+			c.Cond(bad == "", rule, key, p.pos(st.Pos()),
+				"the recorded list is the pre-parse result, unaltered and not re-sliced for writing",
+				"the recorded list is re-sliced to length 0 at "+bad+" and appended to: the filter overwrites the recorded imports in place")
+		}
+	})
+	if n == 0 {
+		c.Undecidedf(rule, "record", "-", "no store of an import list into the per-file record found in the collector: unresolved anchor")
+	}
+}
+
+// flattenResultKept: the ordered file list produced by the flatten walk reaches
+// the function that parses the files in that order — nothing sorts it on the way.
+func flattenResultKept(c *Check, rule string) {
+	p := c.P
+	ic := findImportClosure(c)
+	if ic == nil {
+		return
+	}
+	n := 0
+	for _, u := range ic.users {
+		if u.Parent() != nil {
+			continue
+		}
+		// callers of the flatten function
+		for _, f := range p.RepoFuncs() {
+			if fnPkgPath(f) != fnPkgPath(u) {
+				continue
+			}
+			eachInstr(f, func(_ *ssa.BasicBlock, i ssa.Instruction) {
+				cl, ok := i.(*ssa.Call)
+				if !ok || staticCallee(cl) != u || f == u {
+					return
+				}
+				// the list is the pointer argument (an Alloc in the caller)
+				var cell *ssa.Alloc
+				for _, a := range cl.Call.Args {
+					if al, ok := a.(*ssa.Alloc); ok {
+						if _, isSl := al.Type().(*types.Pointer).Elem().Underlying().(*types.Slice); isSl {
+							cell = al
+						}
+					}
+				}
+				if cell == nil {
+					return
+				}
+				n++
+				key := fmt.Sprintf("%s|flattened file list reaches the parser unsorted", fnName(f))
+				bad := ""
+				eachInstr(f, func(_ *ssa.BasicBlock, j ssa.Instruction) {
+					c2, ok := j.(ssa.CallInstruction)
+					if !ok || !isSanitiserCallAny(c2) {
+						return
+					}
+					for _, a := range c2.Common().Args {
+						if derives(a, func(v ssa.Value) bool { return v == ssa.Value(cell) }, nil) {
+							bad = p.pos(j.Pos())
+						}
+					}
+				})
+				c.Cond(bad == "", rule, key, p.pos(cl.Pos()),
+					"no sort is applied to the list between the flatten walk and the parse",
+					"the flattened file list is sorted at "+bad+": files are then parsed in that order and not in the order fixed by the import statements")
+			})
+		}
+	}
+	if n == 0 {
+		c.Undecidedf(rule, "flatten callers", "-", "no call of the flatten function with a local list found: unresolved anchor")
+	}
+}
+
+// isSanitiserCallAny: any sort call, whatever its comparison function.
+func isSanitiserCallAny(cl ssa.CallInstruction) bool {
+	o := calleeObj(cl)
+	return o != nil && o.Pkg() != nil && sanitiserFuncs[o.Pkg().Path()+"."+o.Name()]
 }
